@@ -274,7 +274,10 @@ Section Frame.
       assert (R0 : R H H1) by (eapply R_trans; [|exact E1]; rsolve).
       destruct (c_evs (gcmd cid H1)).
       * destruct (c_eff (gcmd cid H1)).
-        -- destruct (c_len (gcmd cid H1) =? 0); inversion E; subst; exact R0.
+        -- destruct (rsettle F cid H1) as [H2|] eqn:E2; [|discriminate].
+           apply IHs in E2. assert (R2 : R H H2) by (eapply R_trans; eassumption).
+           destruct (c_eff (gcmd cid H2)); [destruct (c_evs (gcmd cid H2)); [destruct (c_len (gcmd cid H2) =? 0)|]|];
+             inversion E; subst; exact R2.
         -- inversion E; subst. eapply R_trans; [exact R0|]. rsolve.
       * inversion E; subst. eapply R_trans; [exact R0|]. rsolve.
     - (* settle *)
